@@ -250,7 +250,7 @@ func (c *Ctx) Violation(key, what string, replay interface{}) {
 		return
 	}
 	c.nrep++
-	dir := filepath.Join(VerifDir, "replays", c.ID)
+	dir := filepath.Join(outDir(), "replays", c.ID)
 	os.MkdirAll(dir, 0755)
 	p := filepath.Join(dir, fmt.Sprintf("%d-%d.json", c.Seed, c.nrep))
 	doc := map[string]interface{}{"property": c.ID, "key": key, "what": what, "seed": c.Seed, "tier": c.Tier, "case": replay}
@@ -319,9 +319,9 @@ func (c *Ctx) finish(runErr error) int {
 		cov["run_error"] = runErr.Error()
 	}
 	b, _ := json.MarshalIndent(ev, "", " ")
-	os.MkdirAll(filepath.Join(VerifDir, "evidence"), 0755)
+	os.MkdirAll(filepath.Join(outDir(), "evidence"), 0755)
 	if c.Replay == "" {
-		os.WriteFile(filepath.Join(VerifDir, "evidence", c.ID+".json"), b, 0644)
+		os.WriteFile(filepath.Join(outDir(), "evidence", c.ID+".json"), b, 0644)
 	}
 
 	for _, k := range kf {
@@ -407,9 +407,55 @@ func Hash(parts ...string) string {
 	return hex.EncodeToString(h.Sum(nil)[:8])
 }
 
+// outDir is where evidence and replay files go: /verif, or $VERIF_OUT for side runs (debugging, soak loops)
+// that must not overwrite the evidence of the registered commands.
+func outDir() string {
+	if d := os.Getenv("VERIF_OUT"); d != "" {
+		return d
+	}
+	return VerifDir
+}
+
+// SaveText keeps a diagnostic text (a goroutine dump, a worker's stderr) next to the replay files.
+func (c *Ctx) SaveText(name, text string) string {
+	dir := filepath.Join(outDir(), "replays", c.ID)
+	os.MkdirAll(dir, 0755)
+	p := filepath.Join(dir, name)
+	if len(text) > 4<<20 {
+		text = text[len(text)-(4<<20):]
+	}
+	if err := os.WriteFile(p, []byte(text), 0644); err != nil {
+		return ""
+	}
+	return p
+}
+
+// WaitStoreIdle waits until Badger's flusher has finished with the memtables it replayed at start-up: Badger
+// keeps one NNNNN.mem (the active memtable) per store directory once it is idle.  Harness-side kills that are
+// not a quantified crash point call this first, so that where they land does not depend on the scheduler.
+func WaitStoreIdle(dir string, max time.Duration) bool {
+	deadline := time.Now().Add(max)
+	for {
+		ok := true
+		for _, sub := range []string{"db", "db2"} {
+			ms, _ := filepath.Glob(filepath.Join(dir, sub, "*.mem"))
+			if len(ms) > 1 {
+				ok = false
+			}
+		}
+		if ok {
+			return true
+		}
+		if time.Now().After(deadline) {
+			return false
+		}
+		time.Sleep(5 * time.Millisecond)
+	}
+}
+
 // CopyDir copies a directory tree (used to clone a pre-workload data dir for crash sweeps).
 func CopyDir(src, dst string) error {
-	cmd := exec.Command("cp", "-a", src, dst)
+	cmd := exec.Command("cp", "-a", "--sparse=always", src, dst)
 	b, err := cmd.CombinedOutput()
 	if err != nil {
 		return fmt.Errorf("cp -a: %v %s", err, b)
